@@ -14,6 +14,7 @@ INVARIANT LoggedMean
 INVARIANT LoggedMoments
 INVARIANT LoggedSymPSD
 INVARIANT Continuity
+INVARIANT ResetOnlyOnUnderflow
 INVARIANT NonNegative
 INVARIANT SumToOne
 INVARIANT AtLeastOneModel
